@@ -50,13 +50,14 @@ def read_csv(path):
 		return list(csv.reader(f))
 
 
-def write_genomes(directory, contig_lists, names, gz=None):
-	"""Write FASTA files; returns paths. names: file names (may contain sub-directories)."""
+def write_genomes(directory, contig_lists, names, gz=None, softmask=None):
+	"""Write FASTA files; returns paths. names: file names (may contain sub-directories).
+	softmask: seed -> every other file is written with random lower-case stretches (same biological content)."""
 	paths = []
 	for i, (cs, nm) in enumerate(zip(contig_lists, names)):
 		p = os.path.join(directory, nm)
 		os.makedirs(os.path.dirname(p), exist_ok=True)
-		Wd.write_fasta(p, cs, gz=(gz[i] if gz else False), name=f's{i}')
+		Wd.write_fasta(p, cs, gz=(gz[i] if gz else False), name=f's{i}', softmask=(softmask + i if softmask is not None and i % 2 == 0 else None))
 		paths.append(p)
 	return paths
 
